@@ -73,6 +73,9 @@ MANIFESTS = {
     "setuppy": {"setup.py": 'from setuptools import setup\n\nsetup(\n    name="demo",\n    install_requires=[\n        "requests",\n        "flask>=2.0",\n    ],\n)\n'},
     # setup.py is a manifest AND a Python source: it holds a trigger of its own (set literal) for a later codemod
     "setuppy-trigger": {"setup.py": 'from setuptools import setup\n\nEXTRAS = set(["dev", "test"])\n\nsetup(\n    name="demo",\n    install_requires=[\n        "requests",\n    ],\n)\n'},
+    # setup.py is a manifest AND holds the very trigger whose fix needs the new package: the same codemod rewrites the
+    # file and then adds the dependency to it (filled in by project_files: the program text followed by the setup() call)
+    "setuppy-self": {"setup.py": None},
     "setupcfg": {"setup.cfg": "[metadata]\nname = demo\n\n[options]\ninstall_requires =\n    requests\n    flask>=2.0\n"},
     "pyproject+requirements": {
         "pyproject.toml": '[project]\nname = "demo"\nversion = "0.1"\ndependencies = [\n    "requests",\n]\n',
@@ -92,4 +95,6 @@ def project_files(program: str, layout: str, manifest: str, extra_copies: int = 
     for k in range(extra_copies):
         files[f"pkg/mod{k}.py"] = apply_layout(PROGRAMS[program], "lf")
     files.update(MANIFESTS[manifest])
+    if manifest == "setuppy-self":
+        files["setup.py"] = (PROGRAMS[program].rstrip("\n") + '\n\nfrom setuptools import setup\n\nsetup(\n    name="demo",\n    install_requires=[\n        "flask",\n    ],\n)\n')
     return files
